@@ -310,6 +310,12 @@ async def end_to_end(ctx: Ctx, trials: int) -> None:
             await asyncio.sleep(0)
         zones = {int(z.idx, 16): z for z in g.tcs.zones} if g.tcs else {}
         now = g._dt_now()
+        if trial % 2:      # something ELSE looks at the stored messages first (a snapshot, the schema): what the attributes report afterwards is the same
+            try:
+                g.get_state()
+                _ = g.schema
+            except Exception as err:  # noqa: BLE001
+                ctx.dist["e2e-snapshot-first-raises:" + type(err).__name__] += 1
         spans = {}     # every zone's lifespan is looked up BEFORE anything is read: reading one zone must not disturb its siblings
         for z in range(4):
             m = zones[z]._msgs.get("30C9") if z in zones else None
@@ -325,7 +331,7 @@ async def end_to_end(ctx: Ctx, trials: int) -> None:
             await asyncio.sleep(0)
             second = zones[z].temperature
             ctx.case(("e2e", trial, z, form, gap), True, "e2e-zone-temperature")
-            case = {"log_tail": [x[27:] for x in lines[-6:]], "zone": z, "age_s": age.total_seconds(),
+            case = {"log_tail": [x[27:] for x in lines[-6:]], "zone": z, "age_s": age.total_seconds(), "snapshot_and_schema_read_first": bool(trial % 2),
                     "lifespan_s": L.total_seconds() if isinstance(L, td) else None, "first_read": first, "second_read": second,
                     "last_relevant_value": exp_temp[z]}
             if isinstance(L, td) and age < L:
